@@ -928,7 +928,7 @@ def complexification_matrix(mix=(1, 2)):
     return M
 
 
-MATRIX_CLASSES_INT = ("identity", "perm", "intdense", "gintdense", "singular")
+MATRIX_CLASSES_INT = ("identity", "perm", "intdense", "gintdense", "singular", "selection")
 MATRIX_CLASSES_FLOAT = ("complexification", "complexification_inv", "dense_complex", "dense_real")
 
 
@@ -939,6 +939,11 @@ def gen_matrix(rng, cls):
     elif cls == "perm":
         perm = rng.permutation(6)
         M = [[(int(rng.choice([-1, 1])) if perm[i] == j else 0) for j in range(6)] for i in range(6)]
+    elif cls == "selection":
+        # every old variable is renamed to one new variable, several onto the SAME one (rows are repeated unit vectors: singular);
+        # with shifts this is x_old_i = x_new_sel(i) + s_i
+        sel = rng.integers(0, int(rng.integers(1, 5)), 6)
+        M = [[int(sel[i] == j) for j in range(6)] for i in range(6)]
     elif cls == "intdense":
         M = [[int(rng.integers(-2, 3)) for _ in range(6)] for _ in range(6)]
     elif cls == "gintdense":
